@@ -4,10 +4,16 @@ package props
 // shape of jwt.EncodeCustom / DecodeCustom, plus the unsupported ones whose behaviour is pinned.
 
 import (
+	"fmt"
 	"math/big"
 	"net/url"
 	"reflect"
+	"strconv"
+	"strings"
+	"sync"
 	"time"
+
+	"verif/harness/vf"
 )
 
 type C10Str string
@@ -255,6 +261,138 @@ type c10OneT struct {
 	V time.Time `jwt:"v"`
 }
 
+
+// ---- deep embedding (three and more levels; by value, by pointer, mixed, unexported, shadowing) ----
+
+type C10L1 struct { // innermost: four tagged fields of different kinds
+	A1 string `jwt:"l1a"`
+	B1 int32  `jwt:"l1b"`
+	C1 bool   `jwt:"l1c"`
+	D1 []byte `jwt:"l1d"`
+}
+type C10L2 struct {
+	C10L1
+	A2 uint16 `jwt:"l2a"`
+	B2 string `jwt:"l2b"`
+}
+type C10L3 struct {
+	A3 float64 `jwt:"l3a"`
+	C10L2
+}
+type C10L4 struct {
+	C10L3
+	A4 string    `jwt:"l4a"`
+	B4 int8      `jwt:"l4b"`
+	C4 time.Time `jwt:"l4c"`
+}
+type C10L5 struct {
+	A5 string `jwt:"l5a"`
+	C10L4
+}
+type c10EmbDeep3 struct {
+	C10L3
+	X int `jwt:"x"`
+}
+type c10EmbDeep4 struct {
+	X int `jwt:"x"`
+	C10L4
+}
+type c10EmbDeep5 struct {
+	C10L5
+	X []string `jwt:"x"`
+}
+
+type C10P1 struct {
+	A1 string  `jwt:"p1a"`
+	B1 uint64  `jwt:"p1b"`
+	C1 float32 `jwt:"p1c"`
+}
+type C10P2 struct {
+	*C10P1
+	A2 string `jwt:"p2a"`
+}
+type C10P3 struct {
+	A3 int64 `jwt:"p3a"`
+	B3 bool  `jwt:"p3b"`
+	*C10P2
+}
+type C10P4 struct {
+	*C10P3
+	A4 string `jwt:"p4a"`
+}
+type c10EmbDeepPtr3 struct {
+	*C10P3
+	Y int `jwt:"y"`
+}
+type c10EmbDeepPtr4 struct {
+	Y int `jwt:"y"`
+	*C10P4
+}
+
+type C10M2 struct {
+	*C10L1
+	M2 string `jwt:"m2"`
+}
+type C10M3 struct {
+	M3 int16 `jwt:"m3"`
+	C10M2
+	N3 *string `jwt:"n3"`
+}
+type C10M4 struct {
+	*C10M3
+	M4 []int32 `jwt:"m4"`
+}
+type c10EmbDeepMixed struct {
+	C10M4
+	Z uint8 `jwt:"z"`
+}
+
+type c10u1 struct {
+	H1 string `jwt:"uh1"`
+	K1 int    `jwt:"uk1"`
+	J1 bool   `jwt:"uj1"`
+}
+type c10u2 struct {
+	c10u1
+	H2 string `jwt:"uh2"`
+}
+type c10u3 struct {
+	H3 uint32 `jwt:"uh3"`
+	c10u2
+}
+type c10EmbDeepUnexp struct {
+	c10u3
+	Q int `jwt:"q"`
+}
+
+// the same claim name at three depths: encode lets the deepest win (last write), decode the
+// shallowest (first match) — goat implements no dominance rule
+type C10S1 struct {
+	N string `jwt:"name"`
+	V int    `jwt:"v1"`
+}
+type C10S2 struct {
+	C10S1
+	N string `jwt:"name"`
+}
+type c10Shadow struct {
+	C10S2
+	N string `jwt:"name"`
+	W int    `jwt:"w"`
+}
+type C10SA struct {
+	A string `jwt:"dup"`
+	X int    `jwt:"sax"`
+}
+type C10SB struct {
+	B string `jwt:"dup"`
+	Y int    `jwt:"sby"`
+}
+type c10ShadowSibling struct {
+	C10SA
+	C10SB
+}
+
 type c10Entry struct {
 	Name string
 	Type reflect.Type
@@ -263,6 +401,10 @@ type c10Entry struct {
 	// IntBits/Unsigned: single-number types of the boundary stream
 	IntBits  int
 	Unsigned bool
+	// Shadow: one claim name belongs to several fields, so the encoded object can have more than one
+	// member that does not fit its (first-match) destination; Go's map order then decides which error
+	// is reported first — error classes are compared as "some error" only
+	Shadow bool
 }
 
 func c10T[T any]() reflect.Type { var z T; return reflect.TypeOf(z) }
@@ -292,6 +434,15 @@ var c10Family = []c10Entry{
 	{Name: "named-elem", Type: c10T[c10NamedElemT]()},
 	{Name: "array", Type: c10T[c10Array]()},
 	{Name: "complex", Type: c10T[c10Complex]()},
+	{Name: "emb-deep3", Type: c10T[c10EmbDeep3](), Roundtrips: true},
+	{Name: "emb-deep4", Type: c10T[c10EmbDeep4](), Roundtrips: true},
+	{Name: "emb-deep5", Type: c10T[c10EmbDeep5](), Roundtrips: true},
+	{Name: "emb-deep-ptr3", Type: c10T[c10EmbDeepPtr3](), Roundtrips: true},
+	{Name: "emb-deep-ptr4", Type: c10T[c10EmbDeepPtr4](), Roundtrips: true},
+	{Name: "emb-deep-mixed", Type: c10T[c10EmbDeepMixed](), Roundtrips: true},
+	{Name: "emb-deep-unexp", Type: c10T[c10EmbDeepUnexp](), Roundtrips: true},
+	{Name: "shadow", Type: c10T[c10Shadow](), Shadow: true},
+	{Name: "shadow-sibling", Type: c10T[c10ShadowSibling](), Shadow: true},
 	{Name: "int8", Type: c10T[c10OneI8](), Roundtrips: true, IntBits: 8},
 	{Name: "int16", Type: c10T[c10OneI16](), Roundtrips: true, IntBits: 16},
 	{Name: "int32", Type: c10T[c10OneI32](), Roundtrips: true, IntBits: 32},
@@ -314,5 +465,86 @@ func c10EntryByName(n string) *c10Entry {
 			return &c10Family[i]
 		}
 	}
+	if strings.HasPrefix(n, "dyn:") {
+		if seed, err := strconv.ParseUint(n[4:], 10, 64); err == nil {
+			return c10DynEntry(seed)
+		}
+	}
 	return nil
+}
+
+// ---- generated struct types (reflect.StructOf): embedding trees of depth 1–5 ---------------------
+
+var c10DynCache sync.Map // seed → *c10Entry
+
+var c10DynKinds = []reflect.Type{
+	reflect.TypeOf(""), reflect.TypeOf(int8(0)), reflect.TypeOf(int32(0)), reflect.TypeOf(int64(0)), reflect.TypeOf(uint16(0)),
+	reflect.TypeOf(uint64(0)), reflect.TypeOf(false), reflect.TypeOf(float64(0)), reflect.TypeOf([]byte(nil)), reflect.TypeOf(time.Time{}),
+	reflect.TypeOf([]string(nil)), reflect.TypeOf((*string)(nil)), reflect.TypeOf(big.Int{}), reflect.TypeOf([]int32(nil)),
+}
+
+type c10DynGen struct {
+	r      *vf.Rand
+	n      int
+	tags   []string
+	unique bool
+	seen   map[reflect.Type]bool
+}
+
+func (g *c10DynGen) structOf(depth int) reflect.Type {
+	var fs []reflect.StructField
+	own := func() {
+		for k := g.r.Intn(4) + 1; k > 0; k-- {
+			g.n++
+			tag := fmt.Sprintf("t%d", g.n)
+			if len(g.tags) > 0 && g.r.Intn(12) == 0 { // shadowing: reuse a claim name used elsewhere in the tree
+				tag = vf.Pick(g.r, g.tags)
+				g.unique = false
+			}
+			g.tags = append(g.tags, tag)
+			fs = append(fs, reflect.StructField{Name: fmt.Sprintf("F%d", g.n), Type: vf.Pick(g.r, c10DynKinds),
+				Tag: reflect.StructTag(`jwt:"` + tag + `"`)})
+		}
+	}
+	embed := func() {
+		if depth <= 0 {
+			return
+		}
+		for k := 1 + g.r.Intn(6)/5; k > 0; k-- {
+			ct := g.structOf(depth - 1)
+			if g.seen[ct] {
+				g.unique = false // the same type twice in the tree: visited / count logic applies
+			}
+			g.seen[ct] = true
+			g.n++
+			ft := ct
+			if g.r.Bool() {
+				ft = reflect.PointerTo(ct)
+			}
+			fs = append(fs, reflect.StructField{Name: fmt.Sprintf("E%d", g.n), Type: ft, Anonymous: true})
+		}
+	}
+	if g.r.Bool() {
+		own()
+		embed()
+	} else {
+		embed()
+		own()
+	}
+	return reflect.StructOf(fs)
+}
+
+func c10DynEntry(seed uint64) *c10Entry {
+	if e, ok := c10DynCache.Load(seed); ok {
+		return e.(*c10Entry)
+	}
+	g := &c10DynGen{r: vf.NewRand(seed), unique: true, seen: map[reflect.Type]bool{}}
+	depth := 1 + g.r.Intn(5)
+	var t reflect.Type
+	if p, _ := vf.Recover(func() { t = g.structOf(depth) }); p || t == nil {
+		return nil
+	}
+	e := &c10Entry{Name: fmt.Sprintf("dyn:%d", seed), Type: t, Roundtrips: g.unique, Shadow: !g.unique}
+	c10DynCache.Store(seed, e)
+	return e
 }
